@@ -76,9 +76,8 @@ impl FormMultipartData {
             let string = StringExt::filter_ascii_control_characters(&string);
             let string = StringExt::truncate_new_line_carriage_return(&string);
 
-            let _current_string_is_boundary =
-                string.replace(SYMBOL.hyphen, SYMBOL.empty_string)
-                    .ends_with(&boundary.replace(SYMBOL.hyphen, SYMBOL.empty_string));
+            // same test as for every later line: the opening delimiter contains the boundary as given
+            let _current_string_is_boundary = string.contains(&boundary);
 
             if !_current_string_is_boundary {
                 let message = format!("Body in multipart/form-data request needs to start with a boundary, actual string: '{}'", string);
